@@ -16,16 +16,22 @@
 (*                 frames interleave                                          *)
 (*    SysPending   the decoder holds state only for devices with a message    *)
 (*                 partly arrived                                             *)
-EXTENDS Encoder, Status, TLC, Json
+(* TECMP capture modules send their status messages (capture-module status,   *)
+(* bus status with one entry per interface) straight into the same decoder:   *)
+(* it converts them (Tecmp!TecmpDecode) without touching its reassembly       *)
+(* table, and the converted packets update the tracker like any other.  The   *)
+(* ghost for them is written from Payloads!RenderCm / RenderIf, not from the  *)
+(* converter: a TECMP module appears as a device with its latest status and   *)
+(* one interface per bus-status entry.                                        *)
+EXTENDS Encoder, Status, Tecmp, TLC, Json
 
-CONSTANTS MaxEmits, MaxLoss, MaxRemovals, Tags, DumpCases
+CONSTANTS MaxEmits, MaxLoss, MaxRemovals, MaxTecmp, TecKs, Tags, DumpCases
 
-VARIABLES seq, q, pending, trk, exp, fly, nem, nloss, nrem, hist
-vars == << seq, q, pending, trk, exp, fly, nem, nloss, nrem, hist >>
-View == << seq, q, pending, trk, exp, fly, nem, nloss, nrem >>
+VARIABLES seq, q, pending, trk, exp, fly, nem, nloss, nrem, ntec, hist
+vars == << seq, q, pending, trk, exp, fly, nem, nloss, nrem, ntec, hist >>
+View == << seq, q, pending, trk, exp, fly, nem, nloss, nrem, ntec >>
 
-NoTecmp(b) == << >>
-D == INSTANCE Decoder WITH TecmpDecode <- NoTecmp
+D == INSTANCE Decoder WITH TecmpDecode <- TecmpDecode
 
 Devs == {1, 2}
 DevId(d) == 16 + d
@@ -47,7 +53,28 @@ Arrives(d, p) == [dev |-> DevId(d), mt |-> p.mt, pt |-> p.pt, ts |-> p.ts, vid |
 Proj(p) == [dev |-> p.dev, mt |-> p.mt, pt |-> p.pt, ts |-> p.ts, vid |-> p.vid, pl |-> p.pl]
 ProjMap(m) == [d \in DOMAIN m |-> [pkt |-> Proj(m[d].pkt), ifs |-> [i \in DOMAIN m[d].ifs |-> Proj(m[d].ifs[i])]]]
 
+(* ---- TECMP modules ------------------------------------------------------------- *)
+TDevs == {3}                             \* TECMP device id DevId(3) = 19 (one byte on the wire)
+TecHdr(d, mt, t, plen) ==
+    << 0, DevId(d), 0, t, 3, mt, 0, 0, 0, 0, 0, 15 >> \o << 0, 0, 0, 9 >> \o << 0, 0, 0, 0, 0, 4, d, t >> \o BE16(plen) \o << 0, 0 >>
+TecSerial(t) == << 0, 0, 1, t >>
+TecCm(d, t) ==           \* 12 generic bytes (serial number at 8..11), vendor data with sw version at 13..15, hw version at 16..17
+    TecHdr(d, 1, t, 36) \o << 12, 1, 4, 0, 0, 24, 0, 67 >> \o TecSerial(t) \o << 0, 20, 7, t, 3, 3 >> \o Zeros(18)
+TecEntry(i, t) == << 0, 0, 0, i >> \o << 0, 1, t, 2 >> \o << 0, 0, 0, t >>
+TecBus(d, t, k) == TecHdr(d, 2, t, 12 + 12 * k) \o Zeros(12) \o FlattenSeq([i \in 1..k |-> TecEntry(i, t)])
+TecFrames(d) == {TecCm(d, t) : t \in Tags} \cup {TecBus(d, t, k) : t \in Tags, k \in TecKs}
+
+(* what the user is entitled to see for such a frame: written with the builders' rendering, not with the converter *)
+GhostCm(d, t) == [dev |-> DevId(d), mt |-> 3, pt |-> 1, ts |-> << 0, 0, 0, 0, 0, 4, d, t >>, vid |-> 0,
+                  pl |-> RenderCm(Zeros(26), << >>, Decimal(TecSerial(t)), VersionString(<< 3, 3 >>), VersionString(<< 20, 7, t >>), << >>)]
+GhostIf(d, i, t) == [dev |-> DevId(d), mt |-> 3, pt |-> 2, ts |-> << 0, 0, 0, 0, 0, 4, d, t >>, vid |-> 0,
+                     pl |-> RenderIf(<< 0, 0, 0, i >> \o << 0, 1, t, 2 >> \o Zeros(12) \o << 0, 0, 0, t >> \o Zeros(12), << >>, << >>)]
+GhostOf(d, f) ==
+    LET t == f[4] IN
+    IF f[6] = 1 THEN << GhostCm(d, t) >> ELSE [i \in 1..((Len(f) - 40) \div 12) |-> GhostIf(d, i, t)]
+
 Init ==
+    /\ ntec = 0
     /\ seq = [d \in Devs |-> 0] /\ q = [d \in Devs |-> << >>] /\ pending = D!EmptyPending
     /\ trk = EmptyMap /\ exp = EmptyMap /\ fly = [d \in Devs |-> << >>]
     /\ nem = 0 /\ nloss = 0 /\ nrem = 0
@@ -69,7 +96,7 @@ Emit(d, b) ==
     /\ q' = [q EXCEPT ![d] = r.frames]
     /\ fly' = [fly EXCEPT ![d] = [k \in 1..Len(b) |-> [p |-> Arrives(d, b[k]), left |-> FramesOf(b[k]), lost |-> FALSE]]]
     /\ Assert(Len(r.frames) = FramesOf(b[1]) + (IF Len(b) = 2 THEN FramesOf(b[2]) ELSE 0), "the ghost's frame accounting")
-    /\ UNCHANGED << pending, trk, exp, nloss, nrem >>
+    /\ UNCHANGED << pending, trk, exp, nloss, nrem, ntec >>
     /\ Log(1000 * d + LabelOf(b), [op |-> "sys.emit", dev |-> DevId(d), stream |-> Stream, min |-> Ctx.min, max |-> Ctx.max, batch |-> b])
 
 RECURSIVE FoldUpd(_, _, _)
@@ -93,7 +120,7 @@ Deliver(d) ==
     /\ trk' = FoldUpd(trk, r.out, 1)
     /\ fly' = [fly EXCEPT ![d] = g.rest]
     /\ exp' = IF g.done /\ ~g.msg.lost THEN MapUpdate(exp, g.msg.p) ELSE exp
-    /\ UNCHANGED << seq, nem, nloss, nrem >>
+    /\ UNCHANGED << seq, nem, nloss, nrem, ntec >>
     /\ Log(10 + d, [op |-> "sys.deliver", dev |-> DevId(d)])
 
 Lose(d) ==
@@ -101,17 +128,30 @@ Lose(d) ==
     /\ nloss' = nloss + 1
     /\ q' = [q EXCEPT ![d] = SubSeq(@, 2, Len(@))]
     /\ fly' = [fly EXCEPT ![d] = FlyAfter(d, TRUE).rest]
-    /\ UNCHANGED << seq, pending, trk, exp, nem, nrem >>
+    /\ UNCHANGED << seq, pending, trk, exp, nem, nrem, ntec >>
     /\ Log(20 + d, [op |-> "sys.lose", dev |-> DevId(d)])
 
 Remove(d) ==
     /\ nrem < MaxRemovals
     /\ nrem' = nrem + 1
     /\ trk' = MapRemoveDev(trk, DevId(d)) /\ exp' = MapRemoveDev(exp, DevId(d))
-    /\ UNCHANGED << seq, q, pending, fly, nem, nloss >>
+    /\ UNCHANGED << seq, q, pending, fly, nem, nloss, ntec >>
     /\ Log(30 + d, [op |-> "removeDev", dev |-> DevId(d)])
 
-Next == \E d \in Devs : (\E b \in Batches(d) : Emit(d, b)) \/ Deliver(d) \/ Lose(d) \/ Remove(d)
+(* a TECMP status message arrives (these are single frames: nothing to lose half of) *)
+TecmpArrive(d, f) ==
+    LET r == D!Decode(pending, f) IN
+    /\ ntec < MaxTecmp
+    /\ ntec' = ntec + 1
+    /\ pending' = r.pend
+    /\ trk' = FoldUpd(trk, r.out, 1)
+    /\ exp' = FoldUpd(exp, GhostOf(d, f), 1)
+    /\ UNCHANGED << seq, q, fly, nem, nloss, nrem >>
+    /\ Log(5000 + 100 * f[6] + 10 * f[4] + (Len(f) - 40) \div 12, [op |-> "sys.tecmp", dev |-> DevId(d), frame |-> f])
+
+Next == \/ \E d \in Devs : (\E b \in Batches(d) : Emit(d, b)) \/ Deliver(d) \/ Lose(d)
+        \/ \E d \in Devs \cup TDevs : Remove(d)
+        \/ \E d \in TDevs : \E f \in TecFrames(d) : TecmpArrive(d, f)
 
 Spec == Init /\ [][Next]_vars
 
